@@ -15,6 +15,9 @@ var verifNamePool = []string{"A", "a", "B", "Ab", "AB", "aB"}
 
 func verifFold(a, b string) bool { return VerifModelEqualFold(a, b) }
 
+// fields of the source struct considered together with an earlier lookup (history)
+var VerifC03HistoryFields = 1
+
 func VerifHarness_C03_FindField() {
 	pkg := verifUserPkg
 	intT := types.Typ[types.Int]
@@ -60,6 +63,19 @@ func VerifHarness_C03_FindField() {
 	}
 	target := verifNamePool[nondetChoice("target", len(verifNamePool))]
 	ignoreCase := nondetBool("ignoreCase")
+
+	// History: an earlier method of the same run may have looked the same name up on the same source struct with
+	// other autoMap paths (one that holds the name, or none at all). The answer for this method is the same as
+	// in a fresh process.
+	if nondetChoice("earlier-lookup-on-the-same-struct", 2) == 1 {
+		verifAssume(nf <= VerifC03HistoryFields)
+		var earlier []FieldSources
+		if nondetChoice("earlier.automap-holds-the-name", 2) == 1 {
+			earlier = []FieldSources{{Path: []string{"Other"}, Type: TypeOf(types.NewStruct([]*types.Var{types.NewField(token.NoPos, pkg, target, intT, false)}, nil))}}
+		}
+		FindField(target, ignoreCase, source, earlier)
+		FindField(target, !ignoreCase, source, earlier)
+	}
 
 	got, err := FindField(target, ignoreCase, source, additional)
 
